@@ -33,14 +33,14 @@ ASSUMPTIONS = ['constant / all-zero RDM vectors excluded (measure undefined)',
 MEASURES = ['cosine', 'corr', 'spearman', 'kendall', 'tau-b', 'tau-a', 'rho-a', 'cosine_cov', 'corr_cov',
             'bures', 'bures_metric']
 REQUIRED = ['check:definition:' + m for m in MEASURES] + \
-           ['check:symmetry', 'check:self', 'check:range', 'check:cond_permutation', 'check:input_type', 'check:repeat_same_objects',
+           ['check:symmetry', 'check:self', 'check:range', 'check:cond_permutation', 'check:input_type', 'check:repeat_same_objects', 'check:definition_beside_degenerate',
             'rho_a_enumerated', 'tau_a_tie_cases']
 REACH = ['compare', 'compare_cosine', 'compare_correlation', 'compare_spearman', 'compare_kendall_tau',
          'compare_kendall_tau_a', 'compare_rho_a', 'compare_correlation_cov_weighted',
          'compare_cosine_cov_weighted', '_cosine_cov_weighted', '_cov_weighting',
          '_cosine_cov_weighted_slow', '_tau_a', '_bures_similarity_first_way',
          '_sq_bures_metric_first_way', '_get_v']
-FAIL_KEYS = ['measure', 'sigma', 'ties', 'prev']
+FAIL_KEYS = ['measure', 'sigma', 'ties', 'prev', 'degenerate_member']
 TIME_BUDGET = {'quick': 70, 'thorough': 700}
 
 
@@ -261,6 +261,41 @@ def run_case(ctx, case):
                 ctx.fail('input_type', sig, '1-d vector input differs', wit())
 
 
+def run_with_degenerate_member(ctx, m):
+    """stacks in which ONE member is degenerate for the measure (all-zero for cosine-type, constant for
+    correlation / rank type): the entries pairing two non-degenerate RDMs must still equal the definition"""
+    rng = ctx.rng
+    n = int(rng.integers(3, 7))
+    n1, n2 = int(rng.integers(2, 5)), int(rng.integers(2, 5))
+    v1 = gen.rdm_vectors(rng, n1, n, 'pos')
+    v2 = gen.rdm_vectors(rng, n2, n, 'pos')
+    bad1 = int(rng.integers(n1)) if rng.integers(3) else None
+    bad2 = int(rng.integers(n2)) if (bad1 is None or rng.integers(2)) else None
+    val = 0.0 if m == 'cosine' else float(gen.pick(rng, [0.0, 1.0, 2.5]))
+    if bad1 is not None:
+        v1[bad1] = val
+    if bad2 is not None:
+        v2[bad2] = val
+    sig = dict(measure=m, sigma='none', ties=False, degenerate_member=True)
+    wit = lambda **k: dict(measure=m, v1=v1, v2=v2, n_cond=n, **k)  # noqa: E731
+    ok, got = ctx.guarded('definition_beside_degenerate', sig, compare, RDMs(v1.copy()), RDMs(v2.copy()),
+                          method=m, data=wit)
+    if not ok:
+        return
+    got = np.asarray(got)
+    ctx.case('definition_beside_degenerate', sig)
+    for i in range(n1):
+        for j in range(n2):
+            if i == bad1 or j == bad2:
+                continue
+            want = ref_value(m, v1[i], v2[j], n, None)
+            if not close(got[i, j], want, 1e-9, 1e-10):
+                ctx.fail('definition_beside_degenerate', sig, f'entry ({i},{j}) pairs two proper RDMs but is '
+                         f'{got[i, j]!r} instead of {want!r} (a degenerate RDM sits at row {bad1} / column '
+                         f'{bad2} of the stacks)', wit(got=got))
+                return
+
+
 def run(ctx):
     n = ctx.n(330, 1100)
     for it in range(n):
@@ -273,3 +308,5 @@ def run(ctx):
             ctx.count('rejected_degenerate')
             continue
         run_case(ctx, case)
+        if it % 6 == 0:
+            run_with_degenerate_member(ctx, gen.pick(ctx.rng, ['cosine', 'corr', 'spearman', 'cosine', 'corr']))
